@@ -50,6 +50,9 @@ type c10Rec struct {
 	cur  *c10Case
 	prof *agd.Profile
 	dev  *agd.Device
+	// the subnet address of the request's ECS option, if any, and the ASN it geolocates to
+	ecsAddr netip.Addr
+	ecsASN  uint32
 }
 
 func (r *c10Rec) hit(what string) { r.eff[what] = true }
@@ -126,6 +129,10 @@ func TestVerifC10Stack(t *testing.T) {
 		c := rec.cur
 		if host == "" && c != nil && ip.WithZone("") == c.Addr && c.ASNKnown {
 			return &geoip.Location{Country: geoip.CountryAD, Continent: geoip.ContinentEU, ASN: geoip.ASN(c.ASN)}, nil
+		}
+		if host == "" && rec.ecsAddr.IsValid() && ip == rec.ecsAddr {
+			// the place the client's ECS option points to: somewhere else, in another ASN
+			return &geoip.Location{Country: geoip.CountryBE, Continent: geoip.ContinentEU, ASN: geoip.ASN(rec.ecsASN)}, nil
 		}
 		return nil, nil
 	}
@@ -356,6 +363,25 @@ func TestVerifC10Stack(t *testing.T) {
 				req := &dns.Msg{
 					MsgHdr:   dns.MsgHdr{Id: uint16(rng.Intn(65536)), RecursionDesired: true},
 					Question: []dns.Question{{Name: c.Name, Qtype: c.QType, Qclass: dns.ClassINET}},
+				}
+				// a valid ECS option pointing into ANOTHER autonomous system (one the profile lists, if any): access
+				// control is about the client's own address and ASN, never about what its ECS option says
+				rec.ecsAddr, rec.ecsASN = netip.Addr{}, 0
+				if rng.Intn(3) == 0 {
+					decoy := uint32(64999)
+					for _, l := range [][]uint32{c.BASNs, c.AASNs} {
+						for _, x := range l {
+							if x != c.ASN && x != 0 {
+								decoy = x
+							}
+						}
+					}
+					rec.ecsAddr, rec.ecsASN = netip.AddrFrom4([4]byte{45, 45, byte(rng.Intn(250)), 0}), decoy
+					req.SetEdns0(1232, false)
+					o := req.IsEdns0()
+					o.Option = append(o.Option, &dns.EDNS0_SUBNET{Code: dns.EDNS0SUBNET, Family: 1, SourceNetmask: 24,
+						Address: rec.ecsAddr.AsSlice()})
+					via += fmt.Sprintf("/ecs=%s/24(asn %d)", rec.ecsAddr, decoy)
 				}
 				ctx, cancel := context.WithTimeout(context.Background(), c10ReqTimeout)
 				ctx = dnsserver.ContextWithServerInfo(ctx, &dnsserver.ServerInfo{Name: e.name, Addr: e.laddr.String(),
